@@ -1,8 +1,8 @@
 reg("C10", "results depend only on the arguments (history, incremental objects, copies)",
     parts=[
-        dict(harness="c10_copies", cases=dict(quick=2400, thorough=30000), timeout_case=20),
-        dict(harness="c10_incremental", cases=dict(quick=1600, thorough=24000), timeout_case=30),
-        dict(harness="c10_history", cases=dict(quick=640, thorough=8000), timeout_case=120),
+        dict(harness="c10_copies", cases=dict(quick=2400, thorough=24000), timeout_case=20),
+        dict(harness="c10_incremental", cases=dict(quick=1600, thorough=20000), timeout_case=30),
+        dict(harness="c10_history", cases=dict(quick=640, thorough=6000), timeout_case=120),
     ],
     rule="three monitors over recorded histories. c10_copies: (a) a pool of copy-on-write vector handles "
          "(VectorInt, VectorDouble, VectorString, VectorVectorDouble, VectorT<int>) mirrored by std::vector models under "
@@ -10,7 +10,7 @@ reg("C10", "results depend only on the arguments (history, incremental objects, 
          "(getVector()/getVectorPtr() excluded: const methods handing out the shared storage, a deliberate escape hatch), "
          "every handle compared with its model after every step, hazardous uses (const_iterator positions on shared "
          "storage, assignment to a moved-from handle) in forked children; (b) object copies (Db, DbGrid, Model, Vario, "
-         "dense/sparse matrices, Polygons, NeighMoving) by copy-ctor / clone / assignment after 0-2 prior modifications: "
+         "dense/sparse matrices, Polygons, NeighMoving, VarioParam, CovAniso, AnamHermite) by copy-ctor / clone / assignment after 0-2 prior modifications: "
          "modify one side, digest the other, compare the modified side with an uncopied twin. c10_incremental: "
          "same-object histories against a twin built from scratch with the same final content: KrigingCalcul (setters in "
          "random order with replacement, 13 getters, mismatches delta-debugged), Model (edits interleaved with "
@@ -25,12 +25,12 @@ reg("C10", "results depend only on the arguments (history, incremental objects, 
          "least one evaluation",
     level="exploration",
     require=dict(distinct=60,
-                 oracles=dict(quick={"vec-model": 24000, "copy-indep": 2200, "copy-twin": 1600, "kcalc-twin": 1400,
-                                     "model-twin": 800, "neigh-twin": 2000, "ksys-twin": 1700, "vario-twin": 220,
-                                     "matrix-twin": 350, "db-twin": 500, "hist-digest": 300, "hist-options": 2000},
-                              thorough={"vec-model": 300000, "copy-indep": 27000, "copy-twin": 20000, "kcalc-twin": 22000,
-                                        "model-twin": 12000, "neigh-twin": 30000, "ksys-twin": 27000, "vario-twin": 3500,
-                                        "matrix-twin": 5500, "db-twin": 8000, "hist-digest": 3800, "hist-options": 28000})),
+                 oracles=dict(quick={"vec-model": 20000, "copy-indep": 2200, "copy-twin": 1600, "kcalc-twin": 1400,
+                                     "model-twin": 800, "neigh-twin": 1800, "ksys-twin": 1700, "vario-twin": 220,
+                                     "matrix-twin": 320, "db-twin": 500, "hist-digest": 300, "hist-options": 2000},
+                              thorough={"vec-model": 240000, "copy-indep": 21000, "copy-twin": 16000, "kcalc-twin": 18000,
+                                        "model-twin": 9500, "neigh-twin": 24000, "ksys-twin": 21000, "vario-twin": 2800,
+                                        "matrix-twin": 4400, "db-twin": 6400, "hist-digest": 2800, "hist-options": 20000})),
     assumptions=["fork() gives a faithful pristine process: the worker never calls the library outside forked children in c10_history",
                  "twins are built through the public API from the recorded final content; where the construction path differs "
                  "(edits vs creation) answers are compared with a 1e-10 relative tolerance, bit-for-bit otherwise",
